@@ -569,6 +569,67 @@ class Exec:
                 return ref, d, {"k": "for", "init": None, "c": c2, "inc": inc2, "body": node.get("body"), "l": l}
         return None
 
+    def _counted_by_body(self, node, cond, parts, body, out):
+        """while (q != end) { ... --q ... }  /  for (...; q != end; ) { ... }: every variable that changes by a loop-invariant amount
+        per iteration (on every path) is a closed form of an iteration counter k = 0, 1, ...; the condition, evaluated at the top
+        of iteration k, must be a comparison that is linear in k with unit slope, which gives the trip count.
+        Returns True when the loop was emitted as a counted loop over k."""
+        jumps = self._own_jumps(body)
+        if jumps & {"continue"} and not parts:
+            pass
+        derived = self.detect_derived(body, parts, None, None)
+        derived = {i: kd for i, kd in derived.items() if kd[0] == "add" or True}
+        cond_ids = {n.get("id") for n in walk(cond) if n.get("k") == "ref"}
+        prim = [i for i, (kind, d) in derived.items() if i in cond_ids and kind == "add" and sym.const_value(d) in (1, -1)]
+        if len(prim) != 1:
+            return False
+        asg, _ = assigned_ids([cond])
+        if asg:
+            return False
+        pid = prim[0]
+        pname = self._name_of(pid)
+        k = sym.sym("%s#@%d" % (pname, node["l"]))
+        entry = {i: self.env[i] for i in derived}
+        self._ptr_ids = getattr(self, "_ptr_ids", {})
+        for n_ in walk([body] + list(parts) + [cond]):
+            if n_.get("k") == "ref" and n_.get("id") in derived:
+                self._ptr_ids[n_["id"]] = self._is_ptr_ref(n_)
+        self.dry_forget([body] + list(parts))
+        self.havoc([body] + list(parts))
+        self._bind_derived(derived, entry, k)
+        c = self.ev(cond, out)
+        cmpop = hi = None
+        if c[0] == "op" and c[1] in ("<", "<=", ">", ">=", "!="):
+            flip = {"<": ">", "<=": ">=", ">": "<", ">=": "<=", "!=": "!="}
+            lin = sym.linear_in(sym.sub(c[2], c[3]), k)
+            if lin is not None and lin[0] == I(1):
+                cmpop, hi = c[1], sym.neg(lin[1])
+            elif lin is not None and lin[0] == I(-1):
+                cmpop, hi = flip[c[1]], lin[1]
+            if cmpop == "!=":
+                cmpop = "<"
+        if cmpop not in ("<", "<=") or sym.contains(hi, k):
+            for i, e0 in entry.items():
+                self.env[i] = e0
+            return False
+        b = []
+        st = self.block(body, b)
+        latch = []
+        for q in parts:
+            self.ev(q, latch, stmt=True)
+        eff = {"e": "loop", "var": k, "lo": ZERO, "cmp": cmpop, "hi": hi, "step": I(1), "body": b, "l": node["l"], "name": pname,
+               "derived": {self._name_of(i): d for i, (kind, d) in derived.items()}, "counted_by_body": True}
+        if latch:
+            eff["latch"] = latch
+        if st in ("return", "exit"):
+            eff["body_exits"] = True
+        out.append(eff)
+        self.forget_stores_in(b + latch)
+        self.havoc([body] + list(parts))
+        if not eff.get("body_exits") and not ({"break", "return"} & jumps):
+            self._bind_derived(derived, entry, loop_end(eff))
+        return True
+
     def do_for(self, node, out):
         init, cond, inc, body = node.get("init"), node.get("c"), node.get("inc"), node.get("body")
         if inc is None and cond is not None and cond.get("k") == "bin" and (init is None or init.get("k") in ("decl", "assign")) and \
@@ -729,9 +790,16 @@ class Exec:
             self.env[vid] = lo
             for i, e0 in entry.items():
                 self.env[i] = e0
-        # generic
+        # a loop whose counting variable is stepped inside the body (or that has no increment expression)
         if init is not None and not init_done:
-            self.block(init, out)
+            if init.get("k") == "decl":
+                self.block(init, out)
+            else:
+                self.ev(init, out, stmt=True)
+            init_done = True
+        if cond is not None and self._counted_by_body(node, cond, parts, body, out):
+            return "fall"
+        # generic
         self.havoc([cond, inc, body])
         b = []
         c = self.ev(cond, b) if cond is not None else I(1)
@@ -771,6 +839,8 @@ class Exec:
                 self.env[ref["id"]] = sym.add(self.env[ref["id"]], I(d))
                 out.append({"e": "local", "name": ref["n"], "id": ref["id"], "op": "++" if d > 0 else "--", "val": self.env[ref["id"]], "l": node["l"]})
                 return self.do_for(node2, out)
+        if node.get("k") == "while" and node.get("c") is not None and self._counted_by_body(node, node["c"], [], node.get("body"), out):
+            return "fall"
         self.dry_forget([node.get("body")])
         self.havoc([node.get("c"), node.get("body")])
         b = []
@@ -1068,9 +1138,23 @@ class Exec:
             out.append({"e": "local", "name": a["n"], "id": vid, "op": op, "val": rhs, "new": new, "l": e["l"]})
             return new
         lv = self.lv(a, out)
+        if op == "=" and isinstance(rhs, tuple) and rhs and rhs[0] == "poly" and lv[0] in ("idx", "fld") and sym.contains(rhs, lv) \
+                and not is_float_type(a.get("t", "")):
+            # x = x + d  is  x += d  (one canonical form for self-updates of a memory location)
+            lin = sym.linear_in(rhs, lv)
+            if lin is not None and lin[0] == I(1) and not sym.contains(lin[1], lv):
+                op, rhs = "+=", lin[1]
         out.append({"e": "store", "lv": lv, "op": op, "val": rhs, "l": e["l"], "t": a.get("t", ""),
                     "ct": e.get("ct", "")})
         self.remember(lv, rhs if op == "=" else None)
+        if op in ("+=", "-=") and lv[0] in ("idx", "fld") and isinstance(rhs, tuple) and not is_float_type(a.get("t", "")) \
+                and not sym.contains(rhs, lv):
+            # locals computed from the old content of the location are re-expressed through its new content:
+            # old = new - d.  (The terms of the executor always denote the current memory.)
+            back = sym.sub(lv, rhs) if op == "+=" else sym.add(lv, rhs)
+            for vid, val in list(self.env.items()):
+                if isinstance(val, tuple) and val and val[0] not in ("cell", "alias") and sym.contains(val, lv):
+                    self.env[vid] = sym.subst(val, {lv: back})
         return lv
 
     # ------------------------------------------------------------------ tracked memory
